@@ -1485,6 +1485,21 @@ class Exec(object):
             for key, v in s.heap.items():
                 if v.op == "store" and v not in entry_arrays.get(key, ()):
                     written.add(key)
+        if inc is not None:
+            # an induction variable that lives in memory (a member used as loop counter) is written by the increment, not by the body:
+            # it is arbitrary at iteration entry like everything else the loop writes
+            for s in res:
+                if s.status not in ("run", "cont"):
+                    continue
+                try:
+                    s2 = s.clone(); s2.status = "run"
+                    before = dict(s2.heap)
+                    for s3, _ in self.ev(inc, s2):
+                        for key, v in s3.heap.items():
+                            if v is not before.get(key) and v.op == "store":
+                                written.add(key)
+                except Undecided:
+                    pass
         if written:
             # the body must be correct from a state in which earlier iterations have already written
             # those components: re-run with them arbitrary at entry
